@@ -360,6 +360,72 @@ Proof.
       * intros k v C. discriminate.
 Qed.
 
+(** The extent of the result: it reaches just past the largest listed key that
+    was readable, so every key of the result lies at or below such a key. *)
+Lemma lmax_lt_ex x l : x < lmax l -> exists y, In y l /\ x < y.
+Proof.
+  induction l as [|y ys IH]; [unfold lmax; cbn; lia|]. rewrite lmax_cons. intros Hx.
+  destruct (N.ltb_spec x y) as [Hy|Hy]; [exists y; split; [now left|exact Hy]|].
+  destruct IH as [z [Hz Hxz]]; [lia|]. exists z. split; [now right|exact Hxz].
+Qed.
+
+Theorem s_retain_tight order s l m' :
+  NoDup order -> In 0 order -> 0 < l ->
+  retain_rounds_default SUnbound sget sbind order (SBound s l) = Ok m' ->
+  exists L, m' = SBound s L /\ 0 < L
+    /\ forall k, k < L -> exists k', In k' order /\ k <= k' /\ k' < l.
+Proof.
+  intros Hnd H0 Hl. unfold retain_rounds_default.
+  apply in_split in H0 as [o1 [o2 Eo]]. subst order.
+  assert (Hn1 : ~ In 0 o1 /\ ~ In 0 o2).
+  { apply NoDup_remove_2 in Hnd. split; intros C; apply Hnd; apply in_or_app; auto. }
+  destruct Hn1 as [Hn1 Hn2].
+  rewrite retain_pending_app.
+  replace (retain_pending sget (0 :: o2) (SBound s l))
+    with ((if 0 <? l then [(0, s + 0)] else []) ++ retain_pending sget o2 (SBound s l))
+    by (unfold retain_pending; cbn; destruct (0 <? l); reflexivity).
+  set (P1 := retain_pending sget o1 (SBound s l)).
+  set (P2 := retain_pending sget o2 (SBound s l)).
+  assert (HP1 : forall kv, In kv P1 -> fst kv <> 0) by (apply pending_nonzero; auto).
+  assert (HP2 : forall kv, In kv P2 -> fst kv <> 0) by (apply pending_nonzero; auto).
+  destruct (N.ltb_spec 0 l) as [_|]; [|lia].
+  rewrite N.add_0_r. cbn [app].
+  set (L2 := N.max 1 (lmax (map (fun kv : N * N => fst kv + 1) P2))).
+  set (L := N.max L2 (lmax (map (fun kv : N * N => fst kv + 1) P1))).
+  assert (Hres : retain_rounds sbind (S (length (o1 ++ 0 :: o2))) (P1 ++ (0, s) :: P2) SUnbound
+                 = Ok (SBound s L)).
+  { rewrite app_length. cbn [length]. rewrite Nat.add_succ_r.
+    cbn [retain_rounds].
+    destruct (P1 ++ (0, s) :: P2) eqn:EP; [destruct P1; discriminate|]. rewrite <- EP.
+    rewrite spass_unbound_split by auto. fold L2.
+    assert (Hlen : Nat.eqb (length P1) (length (P1 ++ (0, s) :: P2)) = false).
+    { apply Nat.eqb_neq. rewrite app_length. cbn. lia. }
+    rewrite Hlen.
+    destruct P1 as [|p1 P1'] eqn:E1.
+    - cbn. unfold L. cbn. now rewrite N.max_0_r.
+    - assert (Hf : exists f, (length o1 + length o2)%nat = S f).
+      { assert (length o1 <> 0)%nat.
+        { intros C. destruct o1; [|discriminate]. unfold P1 in E1. discriminate. }
+        destruct (length o1 + length o2)%nat eqn:En; [lia|eauto]. }
+      destruct Hf as [f ->]. cbn [retain_rounds]. rewrite <- E1.
+      rewrite spass_bound by (rewrite E1; auto). fold L.
+      rewrite E1. cbn [length Nat.eqb]. reflexivity. }
+  rewrite Hres. intros X. inversion X; subst m'. exists L. split; [reflexivity|]. split; [unfold L, L2; lia|].
+  intros k Hk.
+  assert (Hpend : forall o, (forall x, In x o -> In x (o1 ++ 0 :: o2)) ->
+            k < lmax (map (fun kv : N * N => fst kv + 1) (retain_pending sget o (SBound s l))) ->
+            exists k', In k' (o1 ++ 0 :: o2) /\ k <= k' /\ k' < l).
+  { intros o Ho Hlt. apply lmax_lt_ex in Hlt as [y [Hy Hky]].
+    apply in_map_iff in Hy as [kv [<- Hkv]]. apply pending_vals in Hkv as [Hin G].
+    exists (fst kv). split; [now apply Ho|]. split; [lia|].
+    apply sget_extent in G. destruct G as [s' [l' [E [Hlt' _]]]]. inversion E; subst. exact Hlt'. }
+  destruct (N.ltb_spec k (lmax (map (fun kv : N * N => fst kv + 1) P1))) as [H1|H1].
+  { apply (Hpend o1); auto. intros x Hx. apply in_or_app. now left. }
+  destruct (N.ltb_spec k (lmax (map (fun kv : N * N => fst kv + 1) P2))) as [H2|H2].
+  { apply (Hpend o2); auto. intros x Hx. apply in_or_app. right. now right. }
+  exists 0. split; [apply in_or_app; right; now left|]. unfold L, L2 in Hk. lia.
+Qed.
+
 (** The empty key set: the result is the empty map. *)
 Lemma s_retain_nil m : retain_rounds_default SUnbound sget sbind [] m = Ok SUnbound.
 Proof. reflexivity. Qed.
